@@ -672,7 +672,7 @@ def library_shadow_obligations(ctx, rep, rule="R18f"):
 
 # ---------------------------------------------------------------------------------------------- R18h
 _INTERPRETERS = [(3, 7, 0), (3, 8, 10), (3, 9, 2), (3, 10, 0), (3, 11, 7), (3, 12, 1), (3, 13, 0), (3, 20, 3), (4, 0, 0)]
-_ATTRS = [("title", "R&D<x&y; &amp; &#65; &lt;b&gt;"), ("href", "?a=1&copy=2;&b"), ("checked", None)]
+_ATTRS = [("title", "R&D<x&y; &amp; &#65; &lt;b&gt;"), ("href", "?a=1&copy=2;&b"), ("alt", ""), ("checked", None)]
 
 
 def _version_text(v):
@@ -777,9 +777,10 @@ def attribute_passthrough_obligations(ctx, rep, rule="R18h"):
 
         w2 = Walker(prog, ctx.resolver, call_value=cv, expr_value=ev2, exact_loops=True, unroll=8, max_paths=3000,
                     inline=lambda fn, t, d: d < 2 and fn.module.name.startswith("simpletal") and fn.name not in ("parseStartTag", "popTag"))
-        given = [a for a in _ATTRS if a[1] is not None]
+        given = [a for a in _ATTRS if a[1] is not None] + [("checked", "checked")]
+        handed = list(_ATTRS)  # a minimised attribute comes as (name, None) and is given its own name; an empty value stays empty
         try:
-            paths = w2.run(hs, comp, env={hs.params[1]: Const("a"), hs.params[2]: Const(list(given))},
+            paths = w2.run(hs, comp, env={hs.params[1]: Const("a"), hs.params[2]: Const(handed)},
                            facts={"self.tal_namespace_omittag": Const("tal:omit-tag")})
             kinds = {p.kind for p in paths}
         except PathLimit:
